@@ -1,13 +1,604 @@
-// Package c12 is the harness for property C12 (runs the real kapacitor code, prints op lines).
+// Package c12 is the harness for property C12 (join / union results do not depend on how the parent
+// streams interleave). It runs the REAL kapacitor code in-process and prints op lines with what was observed:
+//
+//	cq    – kapacitor.CircularQueue[int] through its public API (+ the index view of the verif hook);
+//	union – the real UnionNode (hook VerifNewUnion) fed with an EXPLICIT arrival order;
+//	join  – the real JoinNode  (hook VerifNewJoin)  fed with an EXPLICIT arrival order;
+//	task  – a real TaskMaster task `p0|join(p1..)@sink()` / `p0|union(p1..)@sink()`: parents are read by the
+//	        multiConsumer goroutines, the write order only biases the interleaving; compared as multisets.
+//
+// One case may hold several runs (`… new`) over the SAME per-parent sequences in different interleavings.
 package c12
 
 import (
 	"fmt"
 	"os"
+	"sort"
+	"strconv"
+	"strings"
+	"time"
+
+	"github.com/influxdata/kapacitor"
+	"github.com/influxdata/kapacitor/edge"
+	"github.com/influxdata/kapacitor/models"
+	"github.com/influxdata/kapacitor/pipeline"
+	"github.com/influxdata/kapacitor/tick/stateful"
+
+	"verifharness/kit"
 )
 
-// Run is replaced by the property's harness.
+type deadman struct{}
+
+func (deadman) Interval() time.Duration { return 0 }
+func (deadman) Threshold() float64      { return 0 }
+func (deadman) Id() string              { return "" }
+func (deadman) Message() string         { return "" }
+func (deadman) Global() bool            { return false }
+
+func un(s string) string { v, _ := kit.Unesc(s); return v }
+func atoi(s string) int64 {
+	v, _ := strconv.ParseInt(s, 10, 64)
+	return v
+}
+func tm(ns int64) time.Time { return time.Unix(0, ns).UTC() }
+
+func list(xs []string) string {
+	if len(xs) == 0 {
+		return "-"
+	}
+	return strings.Join(xs, ",")
+}
+func splitList(s string) []string {
+	if s == "-" || s == "" {
+		return nil
+	}
+	return strings.Split(s, ",")
+}
+
+// kv parses "k=v" option tokens.
+func kv(toks []string) map[string]string {
+	m := map[string]string{}
+	for _, t := range toks {
+		if i := strings.IndexByte(t, '='); i > 0 {
+			m[t[:i]] = t[i+1:]
+		}
+	}
+	return m
+}
+
+// ------------------------------------------------------------------------------------------------
+// circular queue
+
+func cqState(q *kapacitor.CircularQueue[int]) string {
+	data, h, t, l := kapacitor.VerifCQState(q)
+	ds := make([]string, len(data))
+	for i, d := range data {
+		ds[i] = strconv.Itoa(d)
+	}
+	var cs []string
+	for i := 0; i < q.Len; i++ {
+		cs = append(cs, strconv.Itoa(q.Peek(i)))
+	}
+	return fmt.Sprintf("h=%d t=%d l=%d d=%s c=%s", h, t, l, list(ds), list(cs))
+}
+
+// ------------------------------------------------------------------------------------------------
+// pipeline nodes from TICKscript
+
+func tickStr(s string) string { return "'" + strings.ReplaceAll(strings.ReplaceAll(s, `\`, `\\`), `'`, `\'`) + "'" }
+
+func parentsScript(n int, batch bool) string {
+	var b strings.Builder
+	for i := 0; i < n; i++ {
+		if batch {
+			fmt.Fprintf(&b, "var p%d = batch|query('select v from db.rp.m%d').period(10s).every(10s)\n", i, i)
+		} else {
+			fmt.Fprintf(&b, "var p%d = stream|from().measurement('m%d')\n", i, i)
+		}
+	}
+	return b.String()
+}
+
+func others(n int) string {
+	var o []string
+	for i := 1; i < n; i++ {
+		o = append(o, fmt.Sprintf("p%d", i))
+	}
+	return strings.Join(o, ",")
+}
+
+type joinCfg struct {
+	n      int
+	tol    int64
+	fill   string // none | null | i:<int> | f:<hex>
+	names  []string
+	delim  string
+	sname  string
+	on     []string
+	batch  bool
+	hasDel bool
+}
+
+func parseJoinCfg(t []string) joinCfg {
+	m := kv(t)
+	c := joinCfg{n: int(atoi(m["n"])), tol: atoi(m["tol"]), fill: m["fill"], delim: un(m["delim"]), sname: un(m["sname"]), batch: m["edge"] == "batch"}
+	_, c.hasDel = m["delim"]
+	for _, x := range splitList(m["names"]) {
+		c.names = append(c.names, un(x))
+	}
+	for _, x := range splitList(m["on"]) {
+		c.on = append(c.on, un(x))
+	}
+	return c
+}
+
+func (c joinCfg) script() string {
+	var b strings.Builder
+	b.WriteString(parentsScript(c.n, c.batch))
+	fmt.Fprintf(&b, "p0|join(%s)", others(c.n))
+	var ns []string
+	for _, x := range c.names {
+		ns = append(ns, tickStr(x))
+	}
+	fmt.Fprintf(&b, "\n  .as(%s)", strings.Join(ns, ","))
+	switch {
+	case c.fill == "null":
+		b.WriteString("\n  .fill('null')")
+	case c.fill == "none":
+		b.WriteString("\n  .fill('none')")
+	case strings.HasPrefix(c.fill, "i:"):
+		fmt.Fprintf(&b, "\n  .fill(%s)", c.fill[2:])
+	case strings.HasPrefix(c.fill, "f:"):
+		bits, _ := strconv.ParseUint(c.fill[2:], 16, 64)
+		fmt.Fprintf(&b, "\n  .fill(%s)", strconv.FormatFloat(float64frombits(bits), 'f', 3, 64))
+	}
+	if c.hasDel {
+		fmt.Fprintf(&b, "\n  .delimiter(%s)", tickStr(c.delim))
+	}
+	if c.sname != "" {
+		fmt.Fprintf(&b, "\n  .streamName(%s)", tickStr(c.sname))
+	}
+	if len(c.on) > 0 {
+		var ds []string
+		for _, x := range c.on {
+			ds = append(ds, tickStr(x))
+		}
+		fmt.Fprintf(&b, "\n  .on(%s)", strings.Join(ds, ","))
+	}
+	return b.String()
+}
+
+func mkPipeline(script string, batch bool) (*pipeline.Pipeline, error) {
+	et := pipeline.StreamEdge
+	if batch {
+		et = pipeline.BatchEdge
+	}
+	return pipeline.CreatePipeline(script, et, stateful.NewScope(), deadman{}, nil)
+}
+
+func newJoin(c joinCfg) (*kapacitor.VerifJoin, error) {
+	p, err := mkPipeline(c.script()+"\n", c.batch)
+	if err != nil {
+		return nil, err
+	}
+	var jn *pipeline.JoinNode
+	p.Walk(func(n pipeline.Node) error {
+		if j, ok := n.(*pipeline.JoinNode); ok {
+			jn = j
+		}
+		return nil
+	})
+	if jn == nil {
+		return nil, fmt.Errorf("no join node")
+	}
+	jn.Tolerance = time.Duration(c.tol) // arbitrary nanosecond tolerances (TICKscript has no ns literal)
+	return kapacitor.VerifNewJoin(jn, c.n)
+}
+
+func newUnion(n int, rename string) (*kapacitor.VerifUnion, error) {
+	s := parentsScript(n, false) + fmt.Sprintf("p0|union(%s)", others(n))
+	if rename != "" {
+		s += ".rename(" + tickStr(rename) + ")"
+	}
+	p, err := mkPipeline(s+"\n", false)
+	if err != nil {
+		return nil, err
+	}
+	var u *pipeline.UnionNode
+	p.Walk(func(n pipeline.Node) error {
+		if x, ok := n.(*pipeline.UnionNode); ok {
+			u = x
+		}
+		return nil
+	})
+	if u == nil {
+		return nil, fmt.Errorf("no union node")
+	}
+	return kapacitor.VerifNewUnion(u, n)
+}
+
+// ------------------------------------------------------------------------------------------------
+// messages
+
+type ptSpec struct {
+	name   string
+	byName bool
+	dims   []string
+	tags   models.Tags
+	fields models.Fields
+}
+
+func parseTags(s string) models.Tags {
+	t := models.Tags{}
+	for _, e := range splitList(s) {
+		i := strings.IndexByte(e, '=')
+		t[un(e[:i])] = un(e[i+1:])
+	}
+	return t
+}
+
+func parseVal(v string) interface{} {
+	switch {
+	case strings.HasPrefix(v, "i:"):
+		return atoi(v[2:])
+	case strings.HasPrefix(v, "f:"):
+		bits, _ := strconv.ParseUint(v[2:], 16, 64)
+		return float64frombits(bits)
+	case strings.HasPrefix(v, "s:"):
+		return un(v[2:])
+	case v == "b:1":
+		return true
+	case v == "b:0":
+		return false
+	}
+	return nil
+}
+
+func parseFields(s string) models.Fields {
+	f := models.Fields{}
+	for _, e := range splitList(s) {
+		i := strings.IndexByte(e, '=')
+		f[un(e[:i])] = parseVal(e[i+1:])
+	}
+	return f
+}
+
+func mkPoint(m map[string]string, t int64) edge.PointMessage {
+	var dims []string
+	for _, d := range splitList(m["dims"]) {
+		dims = append(dims, un(d))
+	}
+	return edge.NewPointMessage(un(m["name"]), "db", "rp", models.Dimensions{ByName: m["byname"] == "1", TagNames: dims},
+		parseFields(m["fields"]), parseTags(m["tags"]), tm(t))
+}
+
+func dimsStr(d models.Dimensions) string {
+	var ds []string
+	for _, x := range d.TagNames {
+		ds = append(ds, kit.Esc(x))
+	}
+	b := "0"
+	if d.ByName {
+		b = "1"
+	}
+	return b + ";" + list(ds)
+}
+
+func renderMsg(m edge.Message) string {
+	switch x := m.(type) {
+	case edge.PointMessage:
+		return fmt.Sprintf("P;%s;%d;%s;%s;%s", kit.Esc(x.Name()), x.Time().UnixNano(), dimsStr(x.Dimensions()), kit.TagsStr(x.Tags()), kit.FieldsStr(x.Fields()))
+	case edge.BarrierMessage:
+		return fmt.Sprintf("B;%d;%s", x.Time().UnixNano(), kit.Esc(string(x.GroupID())))
+	case edge.BufferedBatchMessage:
+		var ps []string
+		for _, p := range x.Points() {
+			ps = append(ps, fmt.Sprintf("%d/%s/%s", p.Time().UnixNano(), kit.TagsStr(p.Tags()), kit.FieldsStr(p.Fields())))
+		}
+		return fmt.Sprintf("Q;%s;%d;%s;%s;%s", kit.Esc(x.Name()), x.Time().UnixNano(), dimsStr(x.Dimensions()), kit.TagsStr(x.Tags()), strings.Join(append([]string{strconv.Itoa(len(ps))}, ps...), "!"))
+	case edge.DeleteGroupMessage:
+		return "D;" + kit.Esc(string(x.GroupID()))
+	}
+	return fmt.Sprintf("X;%T", m)
+}
+
+func optT(v int64, set bool) string {
+	if !set {
+		return "z"
+	}
+	return strconv.FormatInt(v, 10)
+}
+
+func joinState(j *kapacitor.VerifJoin) []string {
+	var out []string
+	for _, g := range j.Groups() {
+		var hs, ss []string
+		for i, h := range g.Heads {
+			hs = append(hs, optT(h, g.HeadsSet[i]))
+		}
+		for i, t := range g.Times {
+			ss = append(ss, fmt.Sprintf("%d*%d", t, g.Counts[i]))
+		}
+		out = append(out, fmt.Sprintf("G;%s;%s;%s;%s", kit.Esc(g.Group), optT(g.Oldest, g.OldestSet), list(hs), list(ss)))
+	}
+	ma, sp := j.Buffered()
+	if ma+sp > 0 {
+		out = append(out, fmt.Sprintf("M;%d;%d", ma, sp))
+	}
+	return out
+}
+
+func unionState(u *kapacitor.VerifUnion) string {
+	idx, marks, set := u.State()
+	var qs, ms []string
+	for i, x := range idx {
+		qs = append(qs, fmt.Sprintf("%d.%d.%d.%d", x[0], x[1], x[2], x[3]))
+		ms = append(ms, optT(marks[i], set[i]))
+	}
+	return "S;" + list(qs) + ";" + list(ms)
+}
+
+// ------------------------------------------------------------------------------------------------
+// executing one case
+
+type runner struct {
+	cq    *kapacitor.CircularQueue[int]
+	un    *kapacitor.VerifUnion
+	jn    *kapacitor.VerifJoin
+	jcfg  joinCfg
+	ids   map[edge.Message]string // identity of messages handed to the union
+	dead  bool                    // the node panicked: later ops are not executed
+	tasks *taskRun
+}
+
+func (r *runner) unionID(m edge.Message) string {
+	if id, ok := r.ids[m]; ok {
+		return id
+	}
+	switch x := m.(type) {
+	case edge.PointMessage:
+		if v, ok := x.Fields()["id"].(int64); ok {
+			return strconv.FormatInt(v, 10)
+		}
+	case edge.BufferedBatchMessage:
+		if v, ok := x.Tags()["id"]; ok {
+			return v
+		}
+	}
+	return "?"
+}
+
+func (r *runner) unionOut(ms []edge.Message, err error) string {
+	if err != nil {
+		return "err"
+	}
+	var es []string
+	for _, m := range ms {
+		name := "%"
+		var t int64
+		switch x := m.(type) {
+		case edge.PointMessage:
+			name, t = kit.Esc(x.Name()), x.Time().UnixNano()
+		case edge.BufferedBatchMessage:
+			name, t = kit.Esc(x.Name()), x.Time().UnixNano()
+		case edge.BarrierMessage:
+			t = x.Time().UnixNano()
+		}
+		es = append(es, fmt.Sprintf("%s:%d:%s", r.unionID(m), t, name))
+	}
+	return list(es) + " " + unionState(r.un)
+}
+
+func (r *runner) joinOut(ms []edge.Message, err error, sortOut bool) string {
+	if err != nil {
+		return "err"
+	}
+	var es []string
+	for _, m := range ms {
+		es = append(es, renderMsg(m))
+	}
+	if sortOut {
+		sort.Strings(es) // Finish walks a Go map of groups: order across groups is not defined
+	}
+	toks := append([]string{strconv.Itoa(len(es))}, es...)
+	toks = append(toks, "|")
+	toks = append(toks, joinState(r.jn)...)
+	return strings.Join(toks, " ")
+}
+
+func execCase(ops []string) (out []string) {
+	r := &runner{}
+	defer func() {
+		if r.tasks != nil {
+			r.tasks.close()
+		}
+	}()
+	guard := func(line string, f func() string) {
+		defer func() {
+			if rec := recover(); rec != nil {
+				if os.Getenv("VERIF_LOG") != "" {
+					fmt.Fprintln(os.Stderr, "panic:", rec)
+				}
+				r.dead = true
+				out = append(out, line+" => panic")
+			}
+		}()
+		obs := f()
+		if obs == "" {
+			out = append(out, line)
+		} else {
+			out = append(out, line+" => "+obs)
+		}
+	}
+	for _, raw := range ops {
+		line := raw
+		if i := strings.Index(line, " => "); i >= 0 {
+			line = line[:i]
+		}
+		t := strings.Fields(line)
+		if len(t) < 2 {
+			continue
+		}
+		switch t[0] {
+		case "cq":
+			switch t[1] {
+			case "new":
+				guard(line, func() string {
+					xs := splitList(t[2])
+					buf := make([]int, 0, len(xs)) // cap(buf) = len(buf), as for a variadic call
+					for _, x := range xs {
+						buf = append(buf, int(atoi(x)))
+					}
+					r.cq = kapacitor.NewCircularQueue[int](buf...)
+					return cqState(r.cq)
+				})
+			case "enq":
+				guard(line, func() string { r.cq.Enqueue(int(atoi(t[2]))); return cqState(r.cq) })
+			case "deq":
+				guard(line, func() string { r.cq.Dequeue(int(atoi(t[2]))); return cqState(r.cq) })
+			case "peek":
+				guard(line, func() string { return strconv.Itoa(r.cq.Peek(int(atoi(t[2])))) })
+			}
+		case "union":
+			guard(line, func() string {
+				m := kv(t[2:])
+				u, err := newUnion(int(atoi(m["n"])), un(m["rename"]))
+				if err != nil {
+					return "err"
+				}
+				r.un, r.ids, r.dead = u, map[edge.Message]string{}, false
+				return "ok"
+			})
+		case "u":
+			if r.dead || r.un == nil {
+				out = append(out, line+" => dead")
+				continue
+			}
+			switch t[1] {
+			case "pt": // u pt <src> <time> <id>
+				guard(line, func() string {
+					src, tt, id := int(atoi(t[2])), atoi(t[3]), atoi(t[4])
+					p := edge.NewPointMessage(fmt.Sprintf("m%d", src), "db", "rp", models.Dimensions{}, models.Fields{"id": id}, models.Tags{}, tm(tt))
+					r.ids[p] = t[4]
+					ms, err := r.un.Point(src, p)
+					return r.unionOut(ms, err)
+				})
+			case "bat": // u bat <src> <tmax> <id>
+				guard(line, func() string {
+					src, tt := int(atoi(t[2])), atoi(t[3])
+					b := edge.NewBufferedBatchMessage(edge.NewBeginBatchMessage(fmt.Sprintf("m%d", src), models.Tags{"id": t[4]}, false, tm(tt), 1),
+						[]edge.BatchPointMessage{edge.NewBatchPointMessage(models.Fields{"v": int64(1)}, models.Tags{"id": t[4]}, tm(tt))}, edge.NewEndBatchMessage())
+					r.ids[b] = t[4]
+					ms, err := r.un.BufferedBatch(src, b)
+					return r.unionOut(ms, err)
+				})
+			case "bar": // u bar <src> <time> <id>
+				guard(line, func() string {
+					src, tt := int(atoi(t[2])), atoi(t[3])
+					b := edge.NewBarrierMessage(edge.GroupInfo{}, tm(tt))
+					r.ids[b] = t[4]
+					ms, err := r.un.Barrier(src, b)
+					return r.unionOut(ms, err)
+				})
+			case "fin":
+				guard(line, func() string { ms, err := r.un.Finish(); return r.unionOut(ms, err) })
+			}
+		case "join":
+			guard(line, func() string {
+				r.jcfg = parseJoinCfg(t[2:])
+				j, err := newJoin(r.jcfg)
+				if err != nil {
+					if os.Getenv("VERIF_LOG") != "" {
+						fmt.Fprintln(os.Stderr, "join new:", err, "\n", r.jcfg.script())
+					}
+					r.jn = nil
+					return "err"
+				}
+				r.jn, r.dead = j, false
+				return "ok"
+			})
+		case "j":
+			if r.dead || r.jn == nil {
+				out = append(out, line+" => dead")
+				continue
+			}
+			switch t[1] {
+			case "pt": // j pt <src> <time> name= byname= dims= tags= fields= [grp=]
+				m := kv(t[4:])
+				p := mkPoint(m, atoi(t[3]))
+				// the group ID is the implementation's (models.ToGroupID is the subject of C06): an oracle value on the op line
+				line = stripKey(line, "grp") + " grp=" + kit.Esc(string(p.GroupID()))
+				guard(line, func() string {
+					ms, err := r.jn.Point(int(atoi(t[2])), p)
+					return r.joinOut(ms, err, false)
+				})
+			case "bar": // j bar <src> <time> name= byname= dims= tags= [grp=]
+				m := kv(t[4:])
+				gi := mkPoint(m, 0).GroupInfo()
+				line = stripKey(line, "grp") + " grp=" + kit.Esc(string(gi.ID))
+				guard(line, func() string {
+					ms, err := r.jn.Barrier(int(atoi(t[2])), edge.NewBarrierMessage(gi, tm(atoi(t[3]))))
+					return r.joinOut(ms, err, false)
+				})
+			case "fin":
+				guard(line, func() string { ms, err := r.jn.Finish(); return r.joinOut(ms, err, true) })
+			}
+		case "task":
+			guard(line, func() string { return r.taskOp(t) })
+		default:
+			out = append(out, line)
+		}
+	}
+	return out
+}
+
+func stripKey(line, key string) string {
+	t := strings.Fields(line)
+	var o []string
+	for _, x := range t {
+		if !strings.HasPrefix(x, key+"=") {
+			o = append(o, x)
+		}
+	}
+	return strings.Join(o, " ")
+}
+
+func emit(out *kit.Out, id string, lines []string) {
+	out.Line("case", id)
+	for _, l := range lines {
+		out.Line(l)
+	}
+	out.Line("end")
+}
+
+// Run: `vh-c12 -seed S -n N [-tier thorough]` generates; `vh-c12 -ops file` re-executes the cases of a file.
 func Run(args []string) int {
-	fmt.Fprintln(os.Stderr, "c12: harness not implemented yet")
-	return 3
+	f := kit.ParseFlags(args)
+	out := kit.NewOut()
+	defer out.Flush()
+	if f.Ops != "" {
+		lines, err := kit.ReadLines(f.Ops)
+		if err != nil {
+			fmt.Fprintln(os.Stderr, err)
+			return 2
+		}
+		var cur []string
+		id := ""
+		for _, l := range lines {
+			t := strings.Fields(l)
+			switch {
+			case len(t) == 2 && t[0] == "case":
+				id, cur = t[1], nil
+			case len(t) == 1 && t[0] == "end":
+				emit(out, id, execCase(cur))
+				out.Flush()
+			default:
+				cur = append(cur, l)
+			}
+		}
+		return 0
+	}
+	r := kit.NewRand(f.Seed)
+	generate(out, r, f.N, f.Tier)
+	return 0
 }
